@@ -58,6 +58,7 @@ func recCheck(in string, lang int64, extra Event) (err error) {
 	})
 	e := Event{"op": "Check", "in": units(in), "lang": langField(lang), "err": errRec(err), "valid": valid}
 	emit(merge(o.into(e), extra))
+	keepErr(err)
 	return
 }
 
@@ -100,6 +101,33 @@ func recheckStrings() {
 		}
 	}
 	keptStrs, keptStrCopies, keptStrLines = nil, nil, nil
+}
+
+// Error values returned by the library are kept with the text they had at return time (an error whose
+// message is rendered lazily from recycled storage changes its text later).
+var keptErrs []error
+var keptErrTexts []string
+var keptErrLines []int
+
+func keepErr(err error) {
+	if concMode || err == nil {
+		return
+	}
+	if len(keptErrs) >= 256 {
+		recheckErrs()
+	}
+	keptErrs, keptErrTexts, keptErrLines = append(keptErrs, err), append(keptErrTexts, err.Error()), append(keptErrLines, nEvents)
+}
+
+func recheckErrs() {
+	for i := range keptErrs {
+		same := keptErrs[i].Error() == keptErrTexts[i]
+		if !same || i == len(keptErrs)-1 {
+			emit(Event{"op": "Recheck", "kind": "error", "ref": keptErrLines[i], "same": same, "window": len(keptErrs),
+				"now": units(keptErrs[i].Error()), "was": units(keptErrTexts[i])})
+		}
+	}
+	keptErrs, keptErrTexts, keptErrLines = nil, nil, nil
 }
 
 var keptSeeds [][]byte // returned slices kept for Recheck events
@@ -147,6 +175,7 @@ func recToSeedHuge(m, p string, desc string) {
 // recheckSeeds: every seed returned earlier still has the value it had at return.
 func recheckSeeds() {
 	recheckStrings()
+	recheckErrs()
 	for i := range keptSeeds {
 		emit(Event{"op": "Recheck", "kind": "seed", "ref": keptLines[i], "same": bytes.Equal(keptSeeds[i], keptCopies[i])})
 	}
@@ -156,6 +185,7 @@ func recheckSeeds() {
 func recString(n int64, extra Event) (s string) {
 	o := guarded(func() { s = bip39.Language(n).String() })
 	emit(merge(o.into(Event{"op": "String", "n": bigRec(n), "out": units(s)}), extra))
+	keepString(s)
 	return
 }
 
